@@ -500,8 +500,10 @@ class _Watchdog:
     """A case of the solver family that does not return within `seconds` is reported as a violation (a broken ring operation
     can make the Euclidean gcd loop forever); never used to truncate the exploration."""
 
+    tripped = False  # after one genuine timeout in this process the remaining cases get a short fuse
+
     def __init__(self, seconds=60):
-        self.seconds = seconds
+        self.seconds = 5 if _Watchdog.tripped else seconds
 
     def __enter__(self):
         import signal
@@ -510,6 +512,7 @@ class _Watchdog:
         self.active = threading.current_thread() is threading.main_thread()
         if self.active:
             def fire(*_):
+                _Watchdog.tripped = True
                 raise TimeoutError(f"no result within {self.seconds}s")
 
             self.old = signal.signal(signal.SIGALRM, fire)
@@ -566,6 +569,8 @@ def check_solve(spec):
         with _Owned(ns, ch) as own:
             try:
                 t = ns._solve_diophantine(Zs(a, b), max_trials=spec["max_trials"])
+            except TimeoutError:
+                raise
             except Exception as e:  # judged below
                 return ("exc", f"{type(e).__name__}: {e}", own.calls)
         if t is None:
